@@ -629,6 +629,7 @@ func runC14(cfg Config) {
 		}
 		closeP()
 	}
+	c14CLI(cfg, rep, rng)
 	rep.Write(cfg.Out)
 }
 
